@@ -403,4 +403,20 @@ def _eigsy_cplx(inp):
     return t.get("op") == "eigsy" and bool(t.get("cplx")) and res.get("exc") == "AttributeError"
 
 
+@predicate("identify_inverse_transform_amplifies")
+def _identify_inverse_transform_amplifies(inp):
+    """C35: the relation holds for the transformed value t = f(x, c) within 2^10*tol*max(1,|t|) (so pslq did return a genuine
+    relation) and the miss in x comes from pushing the tolerance through the inverse transformation"""
+    e = inp.get("explanation") or {}
+    return e.get("transformed_residual_ok") is True and e.get("transform") not in (None, "$y")
+
+
+@predicate("identify_double_root_quadratic")
+def _identify_double_root_quadratic(inp):
+    """C35: the quadratic found for the transformed value has discriminant 0 (printed as sqrt(0)): its residual c (t - r)^2 is
+    within the tolerance while |t - r| is only ~ sqrt(tol)"""
+    e = inp.get("explanation") or {}
+    return e.get("double_root_residual_ok") is True and "sqrt(0)" in str(inp.get("expression", ""))
+
+
 import special_findings  # noqa: E402  (C18/C19/C22 predicates; must stay at the end of this file)
